@@ -76,7 +76,19 @@ func DrawParams(c *lib.Case) Params {
 		p.PDrop = []float64{0.1, 0.3}[r.Intn(2)]
 		p.LateJoiner = false
 	}
+	if c.Workload == "snap-pairs" {
+		// C09: many snapshots by several writers under heavy loss, so that replicas sit reduced to
+		// different (often concurrent, same-base) snapshots when a pair is sampled
+		p.N = 3 + r.Intn(2)
+		p.Steps = 25 + r.Intn(36)
+		p.PSnapshot = []float64{0.3, 0.45, 0.6}[r.Intn(3)]
+		p.PDrop = []float64{0.3, 0.6}[r.Intn(2)]
+		p.LateJoiner = false
+	}
 	p.MaxSize = []int{8, 64, 600, 600, 400000}[r.Intn(5)]
+	if c.Workload == "snap-pairs" && p.MaxSize > 1000 {
+		p.MaxSize = 600
+	}
 	if c.Workload == "wide" && p.MaxSize > 1000 {
 		p.MaxSize = 64
 	}
